@@ -31,7 +31,7 @@ CHECKS = {
             "Independent 128-bit digest for position identity; map capped (size reported in evidence).",
             "DESIGN.md section 4 C03"),
     "C04": ("exploration",
-            "runtime monitoring of the real search under the overflow/assert-instrumented ('checked') and optimised builds: returned move vs refchess legality, every panic attributed to its case; process-level runs of the real binary",
+            "runtime monitoring of the real search under the overflow/assert-instrumented ('checked') and optimised builds: returned move vs refchess legality, every panic attributed to its case; process-level runs of the real debug and release binaries (incl. the deepest recursion the real search thread reaches, and searches at the end of games of 800-2500 plies); the transposition-table model of C19 as a stage, because the search plays table moves unchecked",
             "Chains of searches sharing one PersistentState across positions x depth/movetime/clock/stop limits x hash "
             "sizes {0..64 MB} x histories (games played through, >256 searches on one table, resets/resizes), in both "
             "arithmetic regimes.",
@@ -75,7 +75,7 @@ CHECKS = {
             "Oracle written with coordinate arithmetic only (no bitboard shifts).",
             "DESIGN.md section 4 C07"),
     "C08": ("exploration",
-            "offline checker over recorded search reports (in-process Reporter and the real binary's info lines): every reported line replayed on refchess, depth sequence and mate-distance/line-length/checkmate consistency",
+            "offline checker over recorded search reports (in-process Reporter and the real binary's info lines): every reported line replayed on refchess, depth sequence and mate-distance/line-length/checkmate consistency; at the binary also lines of 30+ plies, searches without a depth limit on collapsing trees, depth limits next to time limits, and a strict grammar for every output line while the GUI side floods the engine with isready during searches",
             "Every SearchInfo of tens of thousands of searches (mates of length 1-7 for and against the root side, used "
             "tables, tiny trees, fifty-move edges) is replayed.",
             "Trusts refchess.",
@@ -92,7 +92,7 @@ CHECKS = {
             "Hash move is legal or none, as the property states.",
             "DESIGN.md section 4 C10"),
     "C11": ("exploration",
-            "online checker along game histories: repetition verdict vs plain scan of recorded position signatures, fifty-move verdict vs clock and legal-move existence; search-level oracle on clock-99 roots and on announced mate lines; exhaustive material sub-space",
+            "online checker along game histories: repetition verdict vs plain scan of recorded position signatures, fifty-move verdict vs clock and legal-move existence; search-level oracle on clock-99 roots and on announced mate lines, and an audit of the table for entries under the keys of positions a search can only have reached as repetitions; exhaustive material sub-space; at the real binary: games in which the lost side can re-create a position of the game record (score must not be below the draw score; also on a second go), and a differential between 'position G' and 'position G+ ; position G'",
             "Histories steered to shuffle (hundreds of thousands of repetitions incl. at the window edge, FEN starts with "
             "non-zero clocks, castling-right loss inside the window); K v K and K+minor v K over all placements.",
             "With null moves only the sound direction is demanded; two-minor cases are left to the engine.",
